@@ -60,6 +60,9 @@ logging.getLogger("asyncio").setLevel(logging.CRITICAL)
 # on for every fifth case (chosen by a hash of the case, so replays agree), which makes every
 # level-guarded debug statement of the client run - and anything that hides behind one.
 DEBUG_DEFAULT = False
+# ... and asyncio's debug mode (what PYTHONASYNCIODEBUG=1 / -X dev give an application) for
+# every eleventh case.
+LOOP_DEBUG_DEFAULT = False
 
 
 def attach_log(log, debug=False):
@@ -78,7 +81,7 @@ def run(main_factory, *, debug_logging=False, loop_debug=False):
     Returns (result, log, status) where status is 'ok' | 'quiescent' (deterministic hang) |
     'livelock' (a task spins at one virtual instant)."""
     loop, net, log = world(debug_logging)
-    if loop_debug:
+    if loop_debug or LOOP_DEBUG_DEFAULT or os.environ.get("VF_LOOP_DEBUG"):
         loop.set_debug(True)
     status = "ok"
     result = None
